@@ -35,16 +35,19 @@ var historyPrefixes = []string{
 	"<dl><dt>x </dt><dd>y </dd></dl>",
 }
 
+var blockFollow = map[string]bool{"div": true, "p": true, "hr": true, "pre": true}
+
 func runHistory(c *core.Check) {
 	th := c.Thorough()
 	inl := []string{"b", "span", "a"}
 	follow := []string{"svg", "math", "img", "input", "button", "span", "br", "script", "select", "textarea"}
 	if th {
 		inl = append(inl, "i", "q", "label", "x-custom", "ins")
-		follow = append(follow, "div", "p", "template", "noscript", "marquee", "iframe", "video", "object", "canvas", "wbr", "hr", "pre")
+		// (noscript and marquee are left to the whitespace family: the minifier classes them as block elements, a recorded finding)
+		follow = append(follow, "div", "p", "template", "iframe", "video", "object", "canvas", "wbr", "hr", "pre")
 	}
 	seps := []string{"", " ", "<!--c-->", " <!--c-->", "<!--c--> "}
-	bound := fmt.Sprintf("documents P+D and P+P'+D: P, P' over %d block fragments (ordered pairs%s), D = <p>[s0]<I>[s1]</I>[sep]<F>…</F>[s4]</p> and <p>[s0][sep]<F>…</F>[s4]</p> with I over %d inline elements, F over %d following elements (foreign, atomic, void, raw, inline%s), slots over {'', a, 'a ', ' a'}, sep over %d separators (none, space, comment, both orders)",
+	bound := fmt.Sprintf("documents P+D and P+P'+D: P, P' over %d block fragments (ordered pairs%s), D = <p>[s0]<I>[s1]</I>[sep]<F>…</F>[s4]</p> and <p>[s0][sep]<F>…</F>[s4]</p> (<div> instead of <p> around a block F) with I over %d inline elements, F over %d following elements (foreign, atomic, void, raw, inline%s), slots over {'', a, 'a ', ' a'}, sep over %d separators (none, space, comment, both orders)",
 		len(historyPrefixes), map[bool]string{false: " with P' in the first four", true: ""}[th], len(inl), len(follow), map[bool]string{false: "", true: ", block"}[th], len(seps))
 	runFamily(c, "history", bound, 0, func(emit func(ctx, text string) bool) {
 		var docs []string
@@ -55,10 +58,14 @@ func runHistory(c *core.Check) {
 				inner = "a"
 			}
 			fe := f.open + inner + f.close
+			wo, wc := "<p>", "</p>"
+			if blockFollow[fn] {
+				wo, wc = "<div>", "</div>" // a paragraph takes phrasing content only
+			}
 			for _, sep := range seps {
 				for _, s4 := range []string{"", " a", "a"} {
 					for _, s0 := range []string{"a", "a ", ""} {
-						docs = append(docs, "<p>"+s0+sep+fe+s4+"</p>")
+						docs = append(docs, wo+s0+sep+fe+s4+wc)
 					}
 					for _, in := range inl {
 						i := wsElems[in]
@@ -66,7 +73,7 @@ func runHistory(c *core.Check) {
 							continue
 						}
 						for _, s1 := range []string{"a", "a ", " a "} {
-							docs = append(docs, "<p>"+i.open+s1+i.close+sep+fe+s4+"</p>")
+							docs = append(docs, wo+i.open+s1+i.close+sep+fe+s4+wc)
 						}
 					}
 				}
